@@ -39,6 +39,10 @@ class Alphabet:
             elif n.startswith('K:'):
                 code = E.n2i(n[2:])
                 self.codes.append((n, code, False, 'ord', False))
+            elif n.startswith('R:'):
+                # a code of the table for which the fed parser is TAUGHT a decoder that raises (pairing does not depend on decoding)
+                code = E.n2i(n[2:])
+                self.codes.append((n, code, True, 'ord', False))
             else:
                 code = E.n2i(n)
                 self.codes.append((n, code, True, 'trace' if n in TRACE_FAMILY else 'ord', n in FRAGMENT_CAPABLE))
@@ -93,11 +97,23 @@ def _canon_abstract(parser):
     return tuple(out)
 
 
+class DecoderFailed(Exception):
+    pass
+
+
+def _raising_decoder(parser, events):
+    raise DecoderFailed('this decoder cannot decode its window')
+
+
 def check_history(alpha, hist, from_step=0, collect_state=None, prefilled=False, via_generator=False, desc_ts=False, same_ts=False):
     """Run one history on a fresh parser with the reference model in lockstep.
     Returns (violation or None, n_emitted, matched_end_seen). Steps < from_step are replayed and modelled
     but not judged (they were judged as part of an earlier history with the same prefix)."""
     p = TracesParser(alpha.tc, {1: 10, 2: 20, 3: 30}, {10: 'a', 20: 'b', 30: 'c'}) if prefilled else TracesParser(alpha.tc, {}, {})
+    raising = {c[1] for c in alpha.codes if c[0].startswith('R:')}
+    for c in alpha.codes:
+        if c[0].startswith('R:'):
+            p.handlers[c[0][2:]] = _raising_decoder
     ref = {'ord': {}, 'trace': {}}
     emitted = 0
     matched = 0
@@ -134,8 +150,12 @@ def check_history(alpha, hist, from_step=0, collect_state=None, prefilled=False,
         if via_generator:
             got = gen_out.get(i)
         else:
+            decoder_raised = False
             try:
                 got = p.feed(e)
+            except DecoderFailed:
+                # the caller survives the failure of a decoder and goes on feeding the same parser
+                got, decoder_raised = None, True
             except Exception as ex:  # the pairing layer must never raise on these codes
                 return ('raised:' + type(ex).__name__, i, repr(ex)), emitted, matched
         # ---- reference model step
@@ -172,6 +192,11 @@ def check_history(alpha, hist, from_step=0, collect_state=None, prefilled=False,
                 reported.append((i, got, tuple(id(x) for x in got.ktraces)))
             except Exception:
                 pass
+        if not via_generator and code in raising:
+            # the taught decoder raises exactly when a trace of this code was due; the operation is closed all the same
+            if decoder_raised != (exp is not None):
+                return ('decoder-called-without-a-window-to-decode' if decoder_raised else 'missing-trace', i, 'a decoder that raises was taught for this code'), emitted, matched
+            continue
         if not judge:
             continue
         # ---- oracle
@@ -258,6 +283,9 @@ ALPHABETS = {
     'VMF': (['BSC_getpid', 'MACH_vmfault', 'RealFaultAddressInternal'], (1,)),
     'REN': (['BSC_rename', 'VFS_LOOKUP', 'BSC_getpid'], (1,)),
     # the two-record declarations: a name record is a decodable record of its own, whatever its thread emitted before
+    # a launch composite (a dataclass holding a list that may be empty) with and without image records; a code whose taught decoder raises
+    'LAUNCH': (['DBG_DYLD_TIMING_LAUNCH_EXECUTABLE', 'DYLD_uuid_map_a', 'BSC_getpid'], (1, 2)),
+    'RAISE': (['BSC_getpid', 'R:MACH_vm_page_release', 'BSC_getuid'], (1,)),
     'NAME': (['TRACE_DATA_NEWTHREAD', 'TRACE_STRING_NEWTHREAD', 'TRACE_DATA_EXEC', 'TRACE_STRING_EXEC', 'BSC_getpid'], (1, 2)),
     'SIDE': (['BSC_getpid', 'TRACE_DATA_THREAD_TERMINATE', 'TRACE_DATA_NEWTHREAD', 'TRACE_DATA_THREAD_TERMINATE_PID', 'PERF_THD_Data'], (1, 2)),
 }
@@ -294,8 +322,8 @@ class C04(Check):
 
     def plan(self):
         if self.tier == 'quick':
-            return [('A40', 4), ('FRAG', 3), ('T3', 3), ('C7', 4), ('A16+map', 4), ('T3+map', 3), ('SIDE', 3), ('A16+gen', 4), ('C7+gen', 3), ('T3+gen', 3), ('A16+ts', 4), ('FRAG+ts', 3), ('A16+same', 4), ('A16+same+gen', 4), ('FRAG+same', 3), ('TWIN', 4), ('VMF', 5), ('REN', 5), ('NAME', 3)]
-        return [('A40', 5), ('A16', 6), ('FRAG', 4), ('A48', 4), ('T3', 4), ('C7', 5), ('A40+map', 4), ('T3+map', 4), ('SIDE', 4), ('A40+gen', 4), ('C7+gen', 4), ('T3+gen', 4), ('A40+ts', 4), ('FRAG+ts', 4), ('A40+same', 4), ('A16+same+gen', 5), ('FRAG+same', 4), ('TWIN', 5), ('VMF', 6), ('REN', 6), ('NAME', 4)]
+            return [('A40', 4), ('FRAG', 3), ('T3', 3), ('C7', 4), ('A16+map', 4), ('T3+map', 3), ('SIDE', 3), ('A16+gen', 4), ('C7+gen', 3), ('T3+gen', 3), ('A16+ts', 4), ('FRAG+ts', 3), ('A16+same', 4), ('A16+same+gen', 4), ('FRAG+same', 3), ('TWIN', 4), ('VMF', 5), ('REN', 5), ('NAME', 3), ('LAUNCH', 3), ('LAUNCH+gen', 3), ('RAISE', 4)]
+        return [('A40', 5), ('A16', 6), ('FRAG', 4), ('A48', 4), ('T3', 4), ('C7', 5), ('A40+map', 4), ('T3+map', 4), ('SIDE', 4), ('A40+gen', 4), ('C7+gen', 4), ('T3+gen', 4), ('A40+ts', 4), ('FRAG+ts', 4), ('A40+same', 4), ('A16+same+gen', 5), ('FRAG+same', 4), ('TWIN', 5), ('VMF', 6), ('REN', 6), ('NAME', 4), ('LAUNCH', 4), ('LAUNCH+gen', 4), ('RAISE', 5)]
 
     def bounds(self):
         return {'spaces': [{'alphabet': a, 'symbols': len(alphabet(a).syms), 'depth': d,
